@@ -361,7 +361,7 @@ def run_instance_pair(res, xmlschema, cls, version, cons, i, j, XMLSchemaModelEr
         else:
             # children x / y of the target namespace are declared elements; exclude them
             compare('ext-open-union', admitted(s, child_instance, 'd'), d1 | d2, cs)
-    if res.evaluations % 500 < 6:
+    if len(res.samples) < 2:
         res.sample({'pair': [version, a1, a2], 'union': sorted(d1 | d2), 'intersection': sorted(d1 & d2)})
 
 
